@@ -203,6 +203,96 @@ def campaign(prop: str, tier: str, root_seed: int, budget_s: float, jobs: int,
     return agg
 
 
+# ------------------------------------------------------------------ hermetic execution
+class Hermetic:
+    """A helper process forked before this process has executed any simulated run.  Every request
+    is executed in a fresh fork of the helper, i.e. in a process in which mosaik has never run:
+    module-level state that a (changed) mosaik keeps between Worlds cannot carry over from the
+    thousands of runs a worker has behind it.  Used to confirm violations and to minimise them."""
+
+    def __init__(self):
+        self.parent, child = mp.Pipe()
+        self.pid = os.fork()
+        if self.pid == 0:
+            try:
+                self.parent.close()
+                self._serve(child)
+            finally:
+                os._exit(0)
+        child.close()
+
+    @staticmethod
+    def _serve(conn):
+        import signal
+        while True:
+            try:
+                msg = conn.recv()
+            except EOFError:
+                return
+            if msg is None:
+                return
+            prop, case, timeout = msg
+            r, w = mp.Pipe(duplex=False)
+            pid = os.fork()
+            if pid == 0:
+                try:
+                    r.close()
+                    try:
+                        res = prop_module(prop).run_case(case, prop)
+                        res = {"violations": res.get("violations", []), "digest": res.get("digest")}
+                        w.send(("ok", res))
+                    except BaseException:  # noqa: BLE001
+                        w.send(("error", traceback.format_exc()[-1500:]))
+                finally:
+                    os._exit(0)
+            w.close()
+            out = ("error", "no result")
+            if r.poll(timeout):
+                try:
+                    out = r.recv()
+                except EOFError:
+                    out = ("error", "child died")
+            else:
+                try:
+                    os.kill(pid, signal.SIGKILL)
+                except OSError:
+                    pass
+                out = ("error", "timeout")
+            try:
+                os.waitpid(pid, 0)
+            except OSError:
+                pass
+            r.close()
+            conn.send(out)
+
+    def run(self, prop, case, timeout=120.0):
+        self.parent.send((prop, case, timeout))
+        if not self.parent.poll(timeout + 30.0):
+            return ("error", "helper timeout")
+        return self.parent.recv()
+
+    def close(self):
+        try:
+            self.parent.send(None)
+            self.parent.close()
+            os.waitpid(self.pid, 0)
+        except Exception:  # noqa: BLE001
+            pass
+
+
+HERMETIC: Optional[Hermetic] = None
+
+
+def run_case_hermetic(prop, case):
+    """run_case in a process that has never executed a run (falls back to in-process)."""
+    if HERMETIC is None:
+        return prop_module(prop).run_case(case, prop)
+    st, res = HERMETIC.run(prop, case)
+    if st != "ok":
+        raise RuntimeError("hermetic run failed: " + str(res)[-600:])
+    return res
+
+
 # ------------------------------------------------------------------ minimisation
 def minimise(prop: str, viol: Dict[str, Any], known, budget_runs=600, budget_s=25.0):
     """Greedy reduction of the failing case; a candidate is kept iff the same
@@ -220,7 +310,7 @@ def minimise(prop: str, viol: Dict[str, Any], known, budget_runs=600, budget_s=2
         nonlocal n, best_v
         n += 1
         try:
-            res = mod.run_case(c, prop)
+            res = run_case_hermetic(prop, c)
         except Exception:  # noqa: BLE001
             return False
         for v in res.get("violations", []):
